@@ -176,6 +176,8 @@ def main():
         for trial in range(120 if a.tier == 'quick' else 1200):
             n = rng.randint(1, 5)
             structs = rng.sample(STRUCTS, n)
+            if trial % 5 == 0 and n >= 2:
+                structs[-1] = structs[0]        # the same base structure listed twice (two derivations, both kept)
             probs = sorted([rng.choice([0.5, 0.25, 0.125, 0.0625, 0.3, 0.1]) for _ in range(n)], reverse=True)
             lines = list(zip(structs, probs))
             mpos = rng.choice([None, 0, len(lines) // 2, len(lines)])
